@@ -96,7 +96,7 @@ def Core.subst : Core → Core → Core
   | .method c sp name args, r => .method (c.subst r) sp name args
   | .await c sp, r => .await (c.subst r) sp
   | .named c sp name, r => .named (c.subst r) sp name
-  | .unnamed c sp i, r => .unnamed (c.subst r) sp i
+  | .unnamed c sp isp i, r => .unnamed (c.subst r) sp isp i
   | .index c sp e, r => .index (c.subst r) sp e
 
 def VExpr.subst (r : Core) (v : VExpr) : VExpr := ⟨v.pre, v.core.subst r⟩
@@ -156,8 +156,8 @@ theorem fieldValue_subst (r : Core) (v : VExpr) (ops : FieldOps) :
   unfold fieldValue
   split <;> simp [applyOps_subst]
 
-theorem wildBase_subst (r : Core) (v : VExpr) (f : FieldName) :
-    (wildBase v f).subst r = wildBase (v.subst r) f := by
+theorem wildBase_subst (r : Core) (v : VExpr) (rsp : Sp) (f : FieldName) :
+    (wildBase v rsp f).subst r = wildBase (v.subst r) rsp f := by
   cases f <;> simp [wildBase, VExpr.subst, Core.subst]
 
 /-- A binder other than the root binder is left alone. -/
@@ -363,7 +363,7 @@ handed `&(v).f`: a reference taken explicitly, to the same effect as a binder. -
 theorem C11_wildcard_field_code (v : VExpr) (ops : FieldOps) (key : Option UExpr) (p : Pat)
     (tl : Items) (f : FieldName) (hf : ops.rootFieldName? = some f) (ht : ops.tailOps? = some none) :
     expandWildFields v (.cons (some ops) key p tl) =
-      .cons (expandPat ⟨[Pre.amp Sp.callSite], wildBase v f⟩ p) (expandWildFields v tl) := by
+      .cons (expandPat ⟨[Pre.amp Sp.callSite], wildBase v ops.rootFieldSp f⟩ p) (expandWildFields v tl) := by
   simp [expandWildFields, hf, ht]
 
 /-- Non-vacuity: the hypotheses of `C11_struct_field_code` / `C11_after_operations` are met by
